@@ -45,6 +45,12 @@ def check(ck):
     from . import helpers as H
     ck.rule('R12.7', 'assoc_path (embedding of a row) keeps its recursion skeleton')
     H.assoc_path_shape(ck, 'R12.7')
+    ck.rule('R12.9', 'the row merge of the RAM emitter compares by value at '
+            'every depth: deep_merge_check hands check_equality (and its '
+            'other mode parameters) on to its recursion')
+    H.recursion_forwards(ck, 'R12.9', [
+        ('deep_merge_check', 'library.dict_utils')])
+    H.deep_merge_check_shape(ck, 'R12.9')
 
 
 def r12_1(ck):
